@@ -61,7 +61,7 @@ def draw_values(draw, n: int, dt: str, func: str, *, nan_p=0.2, alphabet=None):
     return vals
 
 
-LABEL_KINDS = ["int", "int", "negint", "bigint", "float", "floatint", "str"]
+LABEL_KINDS = ["int", "int", "negint", "bigint", "float", "floatint", "str", "u1", "u8", "i2"]
 
 
 def label_pool(draw, kind: str, ngroups: int):
@@ -79,6 +79,12 @@ def label_pool(draw, kind: str, ngroups: int):
         pool = [0.0, 1.0, 2.0, 3.0, 4.0, 0.5, 1.5, 2.5, -1.0]
     elif kind == "str":
         pool = ["a", "b", "c", "d", "e", "f", "g", "h"]
+    elif kind == "datetime":
+        day = 86400 * 10**9
+        pool = [0, day, 2 * day, 3 * day + 1, -day, 10**18, 5, 365 * day]
+    elif kind in ("u1", "u8", "i2"):
+        # narrow / unsigned label dtypes (differences of unsigned labels wrap around)
+        pool = [0, 1, 2, 3, 5, 9, 200, 250] if kind != "i2" else [-300, -1, 0, 1, 2, 5, 9, 300]
     else:
         raise KeyError(kind)
     perm = draw(st.permutations(pool))
@@ -86,7 +92,8 @@ def label_pool(draw, kind: str, ngroups: int):
 
 
 def label_dtype(kind: str) -> str:
-    return {"int": "<i8", "negint": "<i8", "bigint": "<i8", "float": "<f8", "floatint": "<f8", "str": "U"}[kind]
+    return {"int": "<i8", "negint": "<i8", "bigint": "<i8", "float": "<f8", "floatint": "<f8", "str": "U", "u1": "|u1", "u8": "<u8",
+            "i2": "<i2", "datetime": "<M8[ns]"}[kind]
 
 
 def draw_label_codes(draw, n: int, ngroups: int, style: str):
@@ -136,7 +143,12 @@ def draw_labels(draw, n: int, *, kinds=None, max_groups=6, missing=True, styles=
     vals = [pool[c] for c in codes]
     nmissing = 0
     if missing and kind in ("float", "floatint") and n > 0:
-        mstyle = draw(st.sampled_from(["none", "few", "run", "none"]))
+        mstyle = draw(st.sampled_from(["none", "few", "run", "none", "separators"]))
+        if mstyle == "separators":
+            # every change of label is hidden behind a missing label (comparisons with NaN are always False)
+            for i in range(1, n):
+                if vals[i] != vals[i - 1] and vals[i - 1] != "nan":
+                    vals[i] = "nan"
         if mstyle == "few":
             k = draw(st.integers(1, max(1, n // 3)))
             idx = draw(st.lists(st.integers(0, n - 1), min_size=k, max_size=k))
@@ -150,6 +162,12 @@ def draw_labels(draw, n: int, *, kinds=None, max_groups=6, missing=True, styles=
         if not allow_all_missing and vals and all(v == "nan" for v in vals):
             vals[draw(st.integers(0, n - 1))] = pool[0]  # at least one labelled element
         nmissing = sum(1 for v in vals if v == "nan")
+    elif missing and kind == "datetime" and n > 0 and draw(st.booleans()):
+        for i in draw(st.lists(st.integers(0, n - 1), min_size=1, max_size=max(1, n // 3))):
+            vals[i] = "nat"
+        if not allow_all_missing and all(v == "nat" for v in vals):
+            vals[0] = pool[0]
+        nmissing = sum(1 for v in vals if v == "nat")
     return {
         "spec": {"dt": label_dtype(kind), "sh": [n], "v": vals},
         "pool": pool,
